@@ -5,7 +5,7 @@
    proofs.  What is proved is a statement about syscall PATTERNS; that the
    kernel makes fsynced data and directory entries durable is the assumption
    built into the disk semantics [dstep]. *)
-From RW Require Import Base.Bytes Fs.Discipline Fs.DisciplineFacts.
+From RW Require Import Base.Bytes Fs.Discipline Fs.DisciplineFacts Fs.FaultDisciplineFacts.
 Open Scope N_scope.
 
 (* For ALL traces (fresh-directory workloads, any length, any interleaving of
@@ -118,4 +118,121 @@ Proof. vm_compute. reflexivity. Qed.
 Example C07_ex_d1_not_durable :
   let t1 := pre ++ [Mark MCall 1 1; Pwrite (Seg 0) 0 64; Fsync (Seg 0)] in
   f_synced (segs (drun t1 d0) 0) = [(0, 64)] /\ f_dur (segs (drun t1 d0) 0) = false.
+Proof. vm_compute. auto. Qed.
+
+(* ==== fault paths: one injected syscall failure (fsf lines) ==================== *)
+(* [fs_xtrace seg ops f]: the trace -- failed syscalls and per-call results
+   included -- the fs-layer model produces for the calls [ops] (any sequence,
+   invalid calls included) when the fault [f] = Some (class, k) makes the
+   (k+1)-th injectable syscall of that class fail.  [xdiscipline full]: the
+   discipline over such traces; [full = false] leaves out the two directory
+   clauses that the real code does not keep on fault paths (refuted below). *)
+
+(* For ALL op sequences and ALL fault positions: a Delete reports nil only
+   after a successful unlink of that name followed by a successful directory
+   fsync; a Create only after a successful O_CREAT|O_EXCL open and a successful
+   fallocate(0, 0, size) in the same call; a Sync only after a successful fsync
+   of the file in the same call; a Load only when wal-meta.db exists and got
+   its name by rename of a written, synced and closed tmp file. *)
+Theorem C07_fault_core_ok : forall seg ops f, xdiscipline false seg (fs_xtrace seg ops f) = true.
+Proof. exact fault_core_ok. Qed.
+Print Assumptions C07_fault_core_ok.
+
+(* The statement with the directory clauses,
+     forall seg ops f, xdiscipline true seg (fs_xtrace seg ops f) = true
+   (Sync nil => a successful directory fsync followed the creation of the file;
+    Load nil => a successful directory fsync followed the rename)
+   is FALSE of the faithful model: C07_fault_sync_entry_refuted,
+   C07_fault_meta_dir_refuted.  What holds: it is true on every run in which no
+   Sync / Load failed in its directory part (after its file fsync / rename) --
+   every violation stems from such a failed call whose retry skips the
+   directory fsync -- and in particular on every fault-free run. *)
+Theorem C07_fault_full_ok_or_dir_failed : forall seg ops f,
+  xdiscipline true seg (fs_xtrace seg ops f) = true \/ dir_part_failed (fs_run_f seg ops f) = true.
+Proof. exact fault_full_ok_or_dir_failed. Qed.
+Print Assumptions C07_fault_full_ok_or_dir_failed.
+
+Theorem C07_fault_free_full_ok : forall seg ops, xdiscipline true seg (fs_xtrace seg ops None) = true.
+Proof. exact fault_free_full_ok. Qed.
+Print Assumptions C07_fault_free_full_ok.
+
+(* fs/file.go sets `new` before syncDir has succeeded: Create; Write; Sync whose
+   directory fsync fails (reported); the retried Sync reports nil although no
+   successful directory fsync ever followed the creation of the file *)
+Theorem C07_fault_sync_entry_refuted :
+  exists seg ops f, xdiscipline_res true seg (fs_xtrace seg ops f) = Some (10%nat, XVSyncEntryPending).
+Proof. exact sync_entry_refuted. Qed.
+Print Assumptions C07_fault_sync_entry_refuted.
+
+(* metadb.go: Load fails after the rename (directory open / fsync); the retry
+   finds the file, opens it and reports nil: no directory fsync after the rename *)
+Theorem C07_fault_meta_dir_refuted :
+  exists seg ops f, xdiscipline_res true seg (fs_xtrace seg ops f) = Some (8%nat, XVMetaDirNotSynced).
+Proof. exact meta_dir_refuted. Qed.
+Print Assumptions C07_fault_meta_dir_refuted.
+
+(* What acceptance means on the trace itself (any trace, not only the model's):
+   a Delete that reports nil comes after a successful unlink of that name that
+   was followed by a successful directory fsync, the name not created again *)
+Theorem C07_fault_delete_ok_sound : forall full seg t1 s t2,
+  xdiscipline full seg (t1 ++ XRet (FDelete s) true :: t2) = true -> last_unlink_dir_synced s t1.
+Proof. exact delete_ok_sound. Qed.
+Print Assumptions C07_fault_delete_ok_sound.
+
+Theorem C07_fault_create_ok_sound : forall full seg t1 s t2,
+  xdiscipline full seg (t1 ++ XRet (FCreate s) true :: t2) = true ->
+  exists a b, t1 = a ++ b /\ no_ret b /\
+              In (XOk (OpenExcl (Seg s))) b /\ In (XOk (Fallocate (Seg s) 0 0 seg)) b.
+Proof. exact create_ok_sound. Qed.
+Print Assumptions C07_fault_create_ok_sound.
+
+Theorem C07_fault_sync_ok_sound : forall full seg t1 s t2,
+  xdiscipline full seg (t1 ++ XRet (FSync s) true :: t2) = true ->
+  exists a b, t1 = a ++ b /\ no_ret b /\ In (XOk (Fsync (Seg s))) b.
+Proof. exact sync_ok_sound. Qed.
+Print Assumptions C07_fault_sync_ok_sound.
+
+(* ---- non-vacuity of the fault theorems ---------------------------------------- *)
+(* Delete unlinks, cannot open the directory (EMFILE) and reports the error; the
+   retry finds nothing to unlink and reports an error again -- never "done" *)
+Example C07_ex_fault_delete_retry :
+  fs_xtrace 1024 [FCreate 0; FClose 0; FDelete 0; FDelete 0] (Some (SOpenat, 1%nat)) =
+  [XOk (OpenExcl (Seg 0)); XOk (Fallocate (Seg 0) 0 0 1024); XRet (FCreate 0) true;
+   XOk (Close (Seg 0)); XRet (FClose 0) true;
+   XOk (Unlink (Seg 0)); XOpenDir false; XRet (FDelete 0) false;
+   XFail (Unlink (Seg 0)); XRet (FDelete 0) false].
+Proof. vm_compute. reflexivity. Qed.
+(* an implementation that reports the retry as done (seeded change C07-2) is rejected *)
+Example C07_ex_fault_delete_idempotent_rejected :
+  xdiscipline_res false 1024
+    [XOk (OpenExcl (Seg 0)); XOk (Fallocate (Seg 0) 0 0 1024); XRet (FCreate 0) true;
+     XOk (Close (Seg 0)); XRet (FClose 0) true;
+     XOk (Unlink (Seg 0)); XOpenDir false; XRet (FDelete 0) false;
+     XFail (Unlink (Seg 0)); XRet (FDelete 0) true] = Some (9%nat, XVDeleteNoDirFsync).
+Proof. vm_compute. reflexivity. Qed.
+Example C07_ex_fault_delete_missing_rejected :
+  xdiscipline_res false 1024 [XFail (Unlink (Seg 3)); XRet (FDelete 3) true] = Some (1%nat, XVDeleteNoUnlink).
+Proof. vm_compute. reflexivity. Qed.
+(* the premise of C07_fault_delete_ok_sound is satisfiable: a later retry after
+   the file was created again does report done, with its own directory fsync *)
+Example C07_ex_fault_delete_ok :
+  let t := fs_xtrace 1024 [FCreate 0; FDelete 0; FDelete 0; FCreate 0; FDelete 0] (Some (SFsync, 0%nat)) in
+  nth_error t 17 = Some (XRet (FDelete 0) true) /\ xdiscipline true 1024 t = true.
+Proof. vm_compute. auto. Qed.
+(* Create that fails in the preallocation leaves the file behind; the retry
+   fails with EEXIST; a Create reported done without the fallocate is rejected *)
+Example C07_ex_fault_create_prealloc :
+  fs_xtrace 1024 [FCreate 0; FCreate 0] (Some (SFallocate, 0%nat)) =
+  [XOk (OpenExcl (Seg 0)); XFail (Fallocate (Seg 0) 0 0 1024); XOk (Close (Seg 0)); XRet (FCreate 0) false;
+   XFail (OpenExcl (Seg 0)); XRet (FCreate 0) false].
+Proof. vm_compute. reflexivity. Qed.
+Example C07_ex_fault_create_rejected :
+  xdiscipline_res false 1024 [XOk (OpenExcl (Seg 0)); XFail (Fallocate (Seg 0) 0 0 1024); XRet (FCreate 0) true]
+  = Some (2%nat, XVCreateIncomplete).
+Proof. vm_compute. reflexivity. Qed.
+(* the run of C07_fault_sync_entry_refuted does contain the Sync that failed in
+   its directory part, and its core discipline holds *)
+Example C07_ex_fault_sync_dir_failed :
+  dir_part_failed (fs_run_f 1024 ex_sync_ops ex_sync_fault) = true /\
+  xdiscipline false 1024 (fs_xtrace 1024 ex_sync_ops ex_sync_fault) = true.
 Proof. vm_compute. auto. Qed.
